@@ -188,7 +188,18 @@ func genC08(t *rapid.T) C08Case {
 			n += n % 2
 		}
 		b := make([]byte, n)
+		var palette []int // one case in five: all digits from one or two values (all nines, 9090..., extreme weighted sums)
+		if rapid.IntRange(0, 4).Draw(t, "lowentropy") == 0 {
+			palette = []int{rapid.SampledFrom([]int{9, 0, 1, 5, 8, 2, 3, 4, 6, 7}).Draw(t, "p0"), rapid.IntRange(0, 9).Draw(t, "p1")}
+			if rapid.Bool().Draw(t, "single") {
+				palette = palette[:1]
+			}
+		}
 		for i := range b {
+			if palette != nil {
+				b[i] = byte('0' + palette[rapid.IntRange(0, len(palette)-1).Draw(t, "pd")])
+				continue
+			}
 			b[i] = byte('0' + rapid.IntRange(0, 9).Draw(t, "d"))
 		}
 		s = string(b)
